@@ -53,6 +53,17 @@ CLAIMED = {
  "C16": dict(text="Bounded model checking of the serde Visitors (mock Deserializer driving visit_bytes and visit_seq with/without size hint, k symbolic elements for each literal k in 0..=2N) for stack, heap and locked containers, and of to_bytes/from_bytes/parts round trips "
                   "and libsodium layouts of box, sealed box, secret box and signed message with symbolic bytes.",
              ref="DESIGN.md 5/C16", technique="Kani->CBMC bounded model checking with a mock serde Deserializer (both visitor paths) and the ghost libc for heap/locked containers; native replay through serde_json and bincode"),
+ "C07": dict(text="Kernels decided for ALL inputs at full width by symbolic execution of rustc's MIR into z3 (BLAKE2b compress == RFC 7693 F; SipHash-2-4 per input length incl. >= 256 bytes; HSalsa20/HChaCha20 incl. custom constants; "
+                  "LE increment; Poly1305 new / block step from any state in the limb invariant: no overflow, invariant, congruence mod 2^130-5 in witness form / finalize), cross-checked with a second z3 version; "
+                  "drivers decided by Kani/CBMC with the kernels replaced by transcript stubs (BLAKE2b parameter block, block/counter/flag sequence, truncation; Poly1305 buffering; HMAC and SHA-512 padding at the compress512 level; verify functions). "
+                  "function == spec follows by composition.",
+             ref="DESIGN.md 5/C07, 2.2", technique="MIR->SMT symbolic execution (z3, bit-vector and integer domains, witness-form congruence) for kernels + Kani->CBMC bounded model checking with transcript stubs for drivers", engine="e2-mir-smt + e1-kani-cbmc"),
+ "C08": dict(text="Bounded model checking: a message fed as consecutive update calls (literal split shapes covering every buffer-fill state x piece-size class for the 16- and 128-byte buffers, symbolic contents) produces exactly the kernel transcript of the "
+                  "concatenated message, for BLAKE2b (classic + object), Poly1305 (classic + object), HMAC-SHA-512-256 and SHA-512.",
+             ref="DESIGN.md 5/C08", technique="Kani->CBMC bounded model checking of kernel-call transcripts over enumerated split shapes; native replay incremental vs one-shot"),
+ "C13": dict(text="Bounded model checking of the key-derivation constructions with SHA-512 / BLAKE2b / Argon2 as transcript stubs and curve operations as contract stubs: box seed (every listed seed length), kx seed, sign seed, from_secret_key, derive_keypair, "
+                  "Ed25519->X25519 secret and public key conversion (Err exactly when the point does not decode).",
+             ref="DESIGN.md 5/C13", technique="Kani->CBMC bounded model checking with hash-transcript and curve contract stubs; native replay against libsodium's constructions via ctypes"),
 }
 NA = {
  "C18": "Backends in question are assembly (sha2/asm), run-time-selected vendor intrinsics (dalek AVX2) and std::simd; none has a MIR/GOTO encoding Kani accepts and the two BLAKE2b compress variants are mutually exclusive cfg alternatives; see DESIGN.md section 6.",
